@@ -397,7 +397,9 @@ impl Band {
             for (i, t) in tones.iter().enumerate() {
                 let a = fit.amp(i);
                 let dev = (a / t.1 - 1.0).abs();
-                let allowed = amp_tol + spur_allowed * 2.0 / t.1;
+                // 25% guard band: on the unchanged tree the Hann prototype deviates by up to 1.09% right at the
+                // pass edge when f_cutoff*min(1,ratio) is less than about twice the transition half-width
+                let allowed = 1.25 * amp_tol + spur_allowed * 2.0 / t.1;
                 st.max("c01_amplitude_deviation_over_tolerance", dev / allowed);
                 if dev > allowed {
                     cr.viols.push(Viol::new("C01", "amplitude", format!("tone {} at {:.5} cycles/input sample (pass edge {:.5}): amplitude {:.6} instead of {:.6} ({:+.3}%), tolerance {:.3}%", i, t.0, pass_edge, a, t.1, 100.0 * (a / t.1 - 1.0), 100.0 * allowed)));
@@ -453,7 +455,7 @@ impl Band {
             return cr;
         }
         let ph0 = rng.uf(0.0, 2.0 * PI);
-        let (fig_db, tb) = if cfg.kind.is_sinc() { (cfg.window.stop_db() - 1.5, 2.0 * textbook(cfg.interp, amp, f_abs, cfg.oversampling)) } else { (100.0, 0.0) };
+        let (fig_db, tb) = if cfg.kind.is_sinc() { (cfg.window.stop_db() - 3.5, 2.0 * textbook(cfg.interp, amp, f_abs, cfg.oversampling)) } else { (100.0, 0.0) };
         let allowed = undb(-fig_db) * amp + tb + floor * amp;
         let mut power = 0.0;
         for q in 0..2 {
@@ -480,7 +482,9 @@ impl Band {
                 power += ro.y.iter().map(|v| (v - mean) * (v - mean)).sum::<f64>() / ro.y.len() as f64;
             }
         }
-        // phase-averaged power of all alias / image components, as an equivalent sine amplitude
+        // phase-averaged power of all alias / image components, as an equivalent sine amplitude.
+        // Near the Nyquist frequency at ratios close to 1 a tone and its first image fold onto the same
+        // output frequency: two components, each within the figure, add 3 dB (hence figure - 3.5 dB above).
         let eq_amp = (2.0 * power / 2.0).sqrt();
         let ratio_v = eq_amp / allowed;
         let fam = if cfg.kind.is_sinc() { cfg.window.name().to_string() } else { format!("fft.block2^{}", (cfg.fft_sizes().0.min(cfg.fft_sizes().1) as f64).log2().floor()) };
